@@ -9,6 +9,45 @@ import vlib
 CFG = "CONSTANTS Depth = %d Export = %s\nSPECIFICATION Spec\nINVARIANT Axioms\nINVARIANT Typed\n"
 
 
+def c10_vspace(verdict, seed):
+    """C10 on the vector-space layer (TraceVSpace!Ownership): mut_add never writes into the vector that is added, mut_add(None, x) is
+    fresh, accumulation into a caller-built vector gives x + y; all spaces of depth 1 incl. containers with immutable scalar leaves"""
+    e = vlib.tlc_must_pass(vlib.run_tlc("MCVSpace", cfg=CFG % (1, "TRUE"), workers=1, timeout=3000, tag="MCVSpace-export"), "VSpace export")
+    cases = [p for p in e.printed if isinstance(p, dict) and "sp" in p]
+    rng = random.Random(seed)
+    by_sp = {}
+    for c in cases:
+        by_sp.setdefault(json.dumps(c["sp"], sort_keys=True), []).append(c)
+    cases = []
+    for k in sorted(by_sp):
+        grp = by_sp[k]
+        rng.shuffle(grp)
+        cases += grp[:max(3, 1500 // len(by_sp))]
+    for i, c in enumerate(cases):
+        c["id"] = i + 1
+    obs, files = vlib.parallel_replay("vs_replay.py", [{k: c[k] for k in ("id", "sp", "x", "y", "z", "a", "b")} for c in cases], nproc=14, tag="vs10")
+    accepted, g2, d2, _w, _inv = vlib.parallel_validate("TraceVSpace", files, cfg="SPECIFICATION Spec\n", njvm=14, env={"PROP": "C10"})
+    for o in obs:
+        why = []
+        if o["err"]:
+            why.append(o["err"])
+        else:
+            c = cases[o["id"] - 1]
+            if not o.get("fresh"):
+                why.append("mut_add(None, x) is not a fresh copy of x")
+            if not o.get("x_intact"):
+                why.append("an argument was modified")
+            if not o.get("y_intact"):
+                why.append("mut_add(x, y) wrote into y")
+            if o.get("mut_add3") != c["add3"] or o.get("mut_add_xy") != c["add"]:
+                why.append("in-place accumulation differs from addition")
+        if not vlib.reconcile("vector-space observation %d %s" % (o["id"], why), o["id"] in accepted, not why) and not why:
+            why = [vlib.UNNAMED]
+        if why:
+            verdict.violation({"space": json.dumps(o["sp"]), "layer": "vspace"}, {"reason": why, "space": o["sp"], "x": o["x"], "y": o["y"]})
+    return {"states": e.distinct + d2, "transitions": e.generated + g2, "cases": len(obs), "accepted": len(accepted)}
+
+
 def c13(tier, seed, replay=None):
     t0 = time.time()
     quick = tier == "quick"
@@ -34,7 +73,7 @@ def c13(tier, seed, replay=None):
         c["id"] = i + 1
     work = [{k: c[k] for k in ("id", "sp", "x", "y", "z", "a", "b")} for c in cases]
     obs, files = vlib.parallel_replay("vs_replay.py", work, nproc=14, tag="vs")
-    accepted, g2, d2, _w, _inv = vlib.parallel_validate("TraceVSpace", files, cfg="SPECIFICATION Spec\n", njvm=14)
+    accepted, g2, d2, _w, _inv = vlib.parallel_validate("TraceVSpace", files, cfg="SPECIFICATION Spec\n", njvm=14, env={"PROP": "C13"})
     states += d2
     trans += g2
     by_id = {o["id"]: o for o in obs}
